@@ -504,6 +504,12 @@ int main(int argc, char **argv)
 	vrt_name(&rcu_registry_lock, sizeof(rcu_registry_lock), "registry_lock");
 	vrt_name(&gp_waiters.stack.head, sizeof(void *), "waiters.head");
 	vrt_name(&URCU_TLS(rcu_reader).ctr, sizeof(unsigned long), "reader0.ctr");
+	{
+		/* symbolic name for the main thread's stack (on-stack wait nodes of synchronize_rcu) */
+		char here;
+		uintptr_t top = ((uintptr_t)&here + 4096) & ~(uintptr_t)4095;
+		vrt_name((void *)(top - (1 << 20)), 1 << 20, "stack0");
+	}
 	vrt_name(&call_rcu_mutex, sizeof(call_rcu_mutex), "call_rcu_mutex");
 	vrt_name(&default_call_rcu_data, sizeof(default_call_rcu_data), "dflt");
 	vrt_name(&per_cpu_call_rcu_data, sizeof(per_cpu_call_rcu_data), "percpu_ptr");
@@ -516,8 +522,7 @@ int main(int argc, char **argv)
 		/* rcu_barrier() with no helper at all, then the default helper created eagerly */
 		do_barrier();
 		vrt_log("CALL get_default");
-		(void)get_default_call_rcu_data();
-		vrt_log("RET get_default");
+		vrt_log("RET get_default crd%d", crd_id(get_default_call_rcu_data()));
 	}
 	for (i = 0; i < nworkers; i++)
 		wt[i] = vrt_spawn("worker", worker, (void *)(long)(i + 1));
